@@ -1,13 +1,13 @@
 #!/bin/bash
 # mutate_all.sh [max-per-function]: run the contract-strength probe over every function under contract; survivors go to out/mutation/
-mkdir -p /verif/out/mutation
+OUT=/verif/out/mutation${2:+_$2}; mkdir -p $OUT
 for cf in $(cd /repo && git ls-files | grep verif_contracts.go); do
   pkg=$(dirname $cf)
   grep '^//@ func ' /repo/$cf | sed 's|^//@ func ||' | while read fn; do
     case "$fn" in @*) continue;; esac
-    out=/verif/out/mutation/$(echo "$pkg.$fn" | tr '/ ()*$[]' '_______').txt
+    out=$OUT/$(echo "$pkg.$fn" | tr '/ ()*$[]' '_______').txt
     [ -s "$out" ] && continue
-    timeout 1800 python3 /verif/tools/mutate.py "$pkg" "$fn" --max ${1:-30} --jobs 5 > "$out" 2>&1
+    timeout 1800 python3 /verif/tools/mutate.py "$pkg" "$fn" --max ${1:-30} --jobs 5 --seed ${2:-1} > "$out" 2>&1
     head -1 "$out"
   done
 done
